@@ -21,7 +21,7 @@ COMMON_NOTE = ("Trusted: Coq 8.16.1 kernel (+vm_compute for reflective steps and
                "shim). Modelled, not verified: CPython/numpy/pandas semantics. ")
 
 claim("C03", "Coq theorems for all piles/weights/draws: fractional, random and full-weight transfers never mention the winner, keep order, "
-      "carry exactly the stated per-ranking weights / a sub-collection of size tally-threshold, error characterisation; model tied to the code by "
+      "carry exactly the stated per-ranking weights / a sub-collection of size tally-threshold, error characterisation; exact accounting of the random transfer (drawn weight = tally - threshold) and of whole runs (C03_random.v); model tied to the code by "
       "per-run correspondence on generated piles and whole STV runs with per-round weight accounting.",
       COMMON_NOTE + "The 'equally likely' clause reduces to the law of random.sample (trusted) once the population and k handed to it are proved/validated. "
       "Recorded known findings: random-transfer shortage, Hare/SequentialRCV over-election, Hare zero quota.")
@@ -35,25 +35,25 @@ claim("C06", "Coq theorems for all untied profiles: head-to-head margins (listed
 claim("C10", "Coq theorems for every rule: outcomes depend only on the consumed prefix of the random script; for deterministic rules no recorded tiebreak implies no draw and "
       "identical outcome from every script; recorded tiebreaks are genuine, strict, obeyed; scored tiebreaks sorted with random fallback only inside equal-score groups; "
       "per-run correspondence with recorded/poisoned primitives.",
-      COMMON_NOTE + "Two clauses are proved with an explicit extra premise (named _partial in Properties/C10.v). Known finding: Alaska re-draws tiebreaks in its get_profile replay.")
+      COMMON_NOTE + "The two clauses Properties/C10.v proves with an extra premise (_partial) are proved at full strength in Properties/C10_closed.v. Known finding: Alaska re-draws tiebreaks in its get_profile replay.")
 claim("C11", "Coq theorems for all ballots/profiles: condense preserves per-content weight, distinct, order-independent, idempotent; equality iff equal content weights "
       "(no hypotheses), reflexive/symmetric/transitive; addition adds weights; derived fields; duplicate candidates rejected; limit_denominator port (bound, identity on small denominators); "
       "per-run correspondence on construction, condense, ==, +.",
       COMMON_NOTE + "Attribute immutability is decided by direct run-time tests (no counterpart in a language of immutable values); 'closest fraction' is CPython's (oracle).")
 claim("C12", "Coq theorems for all inputs: strip/remove_cand (profile, tuple, single ballot; both flags) no removed candidate, order and grouping kept, per-ranking weights, loss = exhausted weight; "
-      "add_missing; tie expansion = all linear orders once, equal weights, positional scores preserved; per-run correspondence incl. the cleaning-module functions.",
+      "add_missing; tie expansion = all linear orders once, equal weights, positional scores and pairwise shares preserved (C12_pairwise.v); per-run correspondence incl. the cleaning-module functions.",
       COMMON_NOTE + "Cleaning-module functions (remove_noncands, deduplicate_profiles, remove_empty_ballots) are modelled and validated by correspondence; their theorems are listed in the evidence when present.")
 
 claim("C05", "Coq theorems for all score profiles, m, L, k: validation passes iff arguments and every ballot respect the limits (EValue for arguments, EType for ballots, precedence and first-offender order), totals = sum of weight x score, top-m election spec with exact ValueError characterisation, and the five wrapper classes equal GeneralRating at the documented (L,k) -- the wrapper theorems are stated over Generated/Wiring.v, which is regenerated from /repo/src on every build; per-run correspondence with boundary-violating ballots.",
       COMMON_NOTE + "Wiring generator (harness/wiring_gen.py, fail-closed ast reader) is trusted to render what the wrappers forward.")
-claim("C09", "Coq theorems on arbitrary state lists: negative indices, IndexError exactly out of range, cumulative elected/eliminated/remaining/ranking/status closed forms and monotonicity, get_profile determined by the consumed script prefix and script-independent when no draw is consumed, one-shot rules: replayed profile has the remaining candidates and re-scores to the recorded tallies; per-run correspondence of random query histories on every rule with before/after deep comparison.",
+claim("C09", "Coq theorems on arbitrary state lists: negative indices, IndexError exactly out of range, cumulative elected/eliminated/remaining/ranking/status closed forms and monotonicity, get_profile determined by the consumed script prefix and script-independent when no draw is consumed, one-shot rules, STV, IRV, SequentialRCV, wrapper classes, TopTwo and Alaska: the recorded states are a valid trace, get_profile(i) replays it, has exactly the remaining candidates and re-scores to the recorded tallies (C09_replay.v); per-run correspondence of random query histories on every rule with before/after deep comparison.",
       COMMON_NOTE + "profile-candidates / re-scoring for multi-round rules are decided by the per-run oracle and correspondence (theorem proved for one-shot rules only). Known findings: PluralityVeto replay mutates the object; Alaska replay re-draws tiebreaks.")
 claim("C13", "Coq theorems over Generated/Wiring.v (regenerated from /repo/src each build): IRV = STV(m=1), SNTV = Plurality, SequentialRCV = STV with the full-weight transfer, STV defaults and quota formulas; TopTwo and Alaska unfolded into their documented compositions (iff), TopTwo winner = head-to-head first-preference winner of the top two, Alaska = Plurality(m_1) then STV(m_2) with consecutive round numbers; per-run correspondence plus differential runs inside the implementation under the same recorded random stream.",
       COMMON_NOTE + "Known finding: Alaska's internal get_profile replay re-draws random tiebreaks and can raise KeyError.")
 claim("C20", "Coq theorems: one exact (iff) characterisation per documented precondition of the first error returned -- missing ranking, tied position, non-integer weights (PluralityVeto, random transfer), missing scores, m range (m = n accepted), Alaska stage order, score vector, rating limits, quota name, duplicate candidates -- and no partial result (sum type); generator-side checks (bloc proportions, cohesion rows, bloc names, overlapping intervals) are modelled and validated by correspondence; malformed-stream correspondence on every rule.",
       COMMON_NOTE + "round(sum, 8) != 1 is modelled as |sum - 1| >= 5e-9 with generated cases kept clear of the boundary; the generator-side clauses have a model + correspondence but no separate theorem (they are direct boolean tests).")
 
-claim("C01", "Coq theorems for the STV family on every valid profile, m, configuration and script: round invariant (partition of the candidates, weight bound), exactly m distinct winners, permanent status, termination (never out of fuel), no over-election and exact error characterisation under Droop with the fractional/random transfer, plus machine-checked refutations (Hare / SequentialRCV over-election, random-transfer shortage, Hare zero quota) that are recorded known findings; one-shot rules via the proved top-m election spec (C04/C05), DominatingSets/CondoBorda via C06; per-run correspondence of all 21 election classes incl. PluralityVeto, RandomDictator and BoostedRandomDictator under recorded random streams.",
+claim("C01", "Coq theorems for the STV family on every valid profile, m, configuration and script: round invariant (partition of the candidates, weight bound), exactly m distinct winners, permanent status, termination (never out of fuel), no over-election and exact error characterisation under Droop with the fractional/random transfer, plus machine-checked refutations (Hare / SequentialRCV over-election, random-transfer shortage, Hare zero quota) that are recorded known findings; run-level outcome theorems for every other rule (C01_rules.v: one-shot rules, DominatingSets, CondoBorda, TopTwo, Alaska, RandomDictator, BoostedRandomDictator, PluralityVeto: round structure, exactly m winners, partition, permanent status, exact ValueError-iff without a tiebreak, exhaustive error kinds, never out of fuel for every loop-free rule, machine-checked PluralityVeto non-termination); per-run correspondence of all 21 election classes incl. PluralityVeto, RandomDictator and BoostedRandomDictator under recorded random streams.",
       COMMON_NOTE + "count/partition for TopTwo, Alaska, the dictators and PluralityVeto are decided by the per-run oracle + correspondence (their models have no separate run-level theorem). Known findings listed in known_findings.json.")
 claim("C02", "Coq theorems for all valid profiles and scripts: threshold = floor(N/(m+1))+1 / floor(N/m), computed once; every successful step is exactly one of election (simultaneous: exactly the reachers; one-by-one: a maximal-tally candidate, ties only via a recorded tiebreak, ValueError without one), default election, or elimination of a minimal-tally candidate (ties by lowest initial first-place tally, then recorded random order); per-ranking transfer law weight*(tally-t)/tally (full weight for SequentialRCV) for any number of simultaneous winners; reported tallies/order are the first-place weights of the resulting ballots. Per-run: model correspondence and an independent reference count written from the property text, compared round by round.",
       COMMON_NOTE)
@@ -71,7 +71,7 @@ claim("C18", "Coq theorems from the parsed table: one ballot per distinct row pa
 claim("C19", "Coq theorems: Lp sum = p-norm^p of the difference of normalised ranking distributions (independent of the key order), symmetry, zero iff same distribution, invariance under reordering/condensing/rescaling, triangle inequality for p=1, inf (over Q), p=2 (Cauchy-Schwarz, root-free) and every natural p (Minkowski over R via convexity); ballot graph: node and edge sets for n = 2..6 by kernel-checked reflection against all-n characterisations of the spec, node weights add up to the total. Per-run correspondence (exact sums; floats within 1e-9) and exact graph comparison for n = 2..6.",
       COMMON_NOTE + "Only c19_triangle_p / c19_minkowski* / c19_pow_convex depend on axioms: ClassicalDedekindReals.sig_forall_dec and FunctionalExtensionality.functional_extensionality_dep (Coq.Reals). The graph theorems use vm_compute (n=6: ~90 s).")
 
-claim("C14", "Coq theorems for every draw ('every stream'): Plackett-Luce / short PL ballots (length, no repeats, declared candidates, zero-support candidates only as the final tied group, completeness for name-PL), cumulative ballots distribute exactly num_votes points, table samplers, slate ballot types are arrangements of the slate multiset and slate ballots are complete, MCMC chain states are permutations of the seed, spatial ballots are stable sorts, AlternatingCrossover truncation characterised; common tail: per-bloc condense preserves weights, by-bloc profiles add up to the aggregate, total weight = sum of pool sizes (= N for apportioned sizes), positive whole weights. Per-run correspondence of 13 generator classes under recorded numpy/random streams + well-formedness oracle on all 16.",
+claim("C14", "Coq theorems for every draw ('every stream'): Plackett-Luce / short PL ballots (length, no repeats, declared candidates, zero-support candidates only as the final tied group, completeness for name-PL), cumulative ballots distribute exactly num_votes points, table samplers, slate ballot types are arrangements of the slate multiset and slate ballots are complete, MCMC chain states are permutations of the seed, spatial ballots are stable sorts, AlternatingCrossover truncation characterised; common tail: per-bloc condense preserves weights, by-bloc profiles add up to the aggregate, total weight = sum of pool sizes, positive whole weights; per-bloc sizes exactly the apportioned sizes and aggregate exactly N under the run-checked contract of apportionment.compute (C14_sizes.v). Per-run correspondence of 13 generator classes under recorded numpy/random streams + well-formedness oracle on all 16.",
       COMMON_NOTE + "apportionment.compute (Huntington-Hill) is an external oracle: checked per run to be called with the documented proportions and N, to sum to N and to equal an independent call. ImpartialCulture/IAC (Dirichlet table) and CambridgeSampler (pickled data) have no Gallina model: oracle only. Known findings: AlternatingCrossover truncation, MCMC corner cases.")
 claim("C16", "Coq theorems over finite rational distributions: Plackett-Luce law (mass 1, closed-form probability, support = what the model's core accepts), iid law for cumulative ballots, slate-type sampler = cohesion-weighted draws renormalised when a slate is used up (bin characterisation), exact samplers draw from the C15 tables, name-BT MCMC detailed balance and stationarity for all sizes, slate-BT MCMC detailed balance exactly for cohesion >= 1/2 (machine-checked refutation below 1/2), spatial ballots sorted by distance for every stream, AlternatingCrossover misalignment refuted with a witness. Per-run: the ARGUMENTS handed to the primitives (population aligned with p, size, replace, tables) are compared with the model's and with the documented parameters.",
       COMMON_NOTE + "Laws of numpy.random.choice / uniform / random.* and the Dirichlet mean (Impartial Culture) are trusted; no frequency test is used as a verdict. Known findings: AlternatingCrossover internal order, slate-BT MCMC below cohesion 1/2, CambridgeSampler at cohesion 0/1.")
